@@ -343,7 +343,78 @@ func main() {
 	w2 := &sim.CaseWriter{OutDir: *outDir, Name: "c14idx", Imports: imp, CaseType: "ix_case", MFun: "ix_mismatches", VFun: "ix_violations", PerShard: 80}
 	indexCases(r.Fork(), *nIdx, w2)
 	w2.Close(st)
+	w3 := &sim.CaseWriter{OutDir: *outDir, Name: "c14own", Imports: imp, CaseType: "ox_case", MFun: "ox_mismatches", VFun: "ox_violations", PerShard: 80}
+	ownCases(r.Fork(), *nIdx, w3)
+	w3.Close(st)
 	capCases(r.Fork(), 1+*nIdx/2, *outDir)
 	fmt.Printf("c14: %d cases; outcomes %v\n", st.Cases, st.Outcomes)
 	_ = fsm.DefaultParams
+}
+
+// ownCases: the calls of one block are nested committees' certificate-results transactions (refused as a whole when they name a known
+// pair) and the chain's OWN last certificate (executed by begin-block: the known pairs are dropped first - the real
+// dropKnownDoubleSigners through a hook - then the real HandleDoubleSigners, exactly what HandleByzantine does for the own chain id)
+func ownCases(r *sim.Rng, count int, cw *sim.CaseWriter) {
+	for c := 0; c < count; c++ {
+		g := &sim.GenesisSpec{}
+		for i := 0; i < 5; i++ {
+			g.Validators = append(g.Validators, sim.StdValidator(i, 1000000))
+		}
+		n, err := sim.NewFNode(g.State(), nil)
+		if err != nil {
+			panic(err)
+		}
+		n.Enter()
+		params, _ := n.FSM.GetParamsVal()
+		var calls, obs []string
+		for k := 0; k < 2+r.Intn(3); k++ {
+			own := r.Chance(45)
+			var ds []*lib.DoubleSigner
+			var lit []string
+			for j := 0; j < 1+r.Intn(3); j++ {
+				v := r.Intn(5)
+				var hs []uint64
+				for x := 0; x < r.Intn(4); x++ {
+					hs = append(hs, r.Pick(3, 4, 5))
+				}
+				ds = append(ds, &lib.DoubleSigner{Id: sim.BLSKey(v).Pub, Heights: hs})
+				lit = append(lit, fmt.Sprintf("(%s, %s)", sim.CoqN(uint64(v)), sim.CoqNList(hs)))
+			}
+			txn, _ := n.FSM.TxnWrap()
+			var herr lib.ErrorI
+			if own {
+				var kept []*lib.DoubleSigner
+				if kept, herr = n.FSM.VerifDropKnownDoubleSigners(ds); herr == nil {
+					herr = n.FSM.HandleDoubleSigners(1, params, kept)
+				}
+			} else {
+				herr = n.FSM.HandleDoubleSigners(1, params, ds)
+			}
+			if herr != nil {
+				txn.Discard()
+			} else {
+				_ = txn.Flush()
+			}
+			n.FSM.SetStore(n.Store)
+			calls = append(calls, fmt.Sprintf("(%s, %s)", sim.CoqBool(own), sim.CoqList(lit)))
+			obs = append(obs, sim.CoqBool(herr == nil))
+			if own {
+				st.Outcomes[fmt.Sprintf("own-certificate:accepted=%v", herr == nil)]++
+			}
+		}
+		var stakes []string
+		for i := 0; i < 5; i++ {
+			v, _ := n.FSM.GetValidator(crypto.NewAddress(sim.BLSKey(i).Addr))
+			s := uint64(0)
+			if v != nil {
+				s = v.StakedAmount
+			}
+			stakes = append(stakes, sim.CoqN(s))
+		}
+		cw.Add(fmt.Sprintf("mkOX %s %s %s %s", sim.CoqList(calls), sim.CoqList(obs), sim.CoqN(params.DoubleSignSlashPercentage), sim.CoqList(stakes)), map[string]any{"calls": len(calls)})
+		st.Cases++
+		st.Distinct++
+		st.Outcomes["own-case"]++
+		n.Close()
+	}
 }
